@@ -8,7 +8,7 @@
 #include <stdlib.h>
 #include <string.h>
 
-static const unsigned char AL[8] = {' ', '\t', '\n', 'a', 'B', ',', '"', 0xE9};
+static const unsigned char AL[9] = {' ', '\t', '\n', 'a', 'B', ',', '"', 0xE9, '\r'};
 static vh_buf b;
 static void seq(const char *name, const unsigned char *p, size_t n, int comma) {
     vh_bprintf(&b, "%s\"%s\":[", comma ? "," : "", name);
@@ -107,7 +107,6 @@ static void do_all(const unsigned char *s, size_t n) {
     }
     /* line reader over the whole text with a buffer that holds any line, and (CR-free texts) with a small one */
     for (int small = 0; small < 2; small++) {
-        if (small && memchr(s, '\r', n)) continue;
         size_t size = small ? 3 : n + 2;
         char *src = malloc(n + 1); memcpy(src, s, n); src[n] = 0;
         gbuf g = gnew(size, NULL, 0);
@@ -141,10 +140,10 @@ int main(int argc, char **argv) {
         vh_open(argv[5]);
         long idx = 0;
         for (int len = 0; len <= maxlen; len++) {
-            long total = 1; for (int i = 0; i < len; i++) total *= 8;
+            long total = 1; for (int i = 0; i < len; i++) total *= 9;
             for (long v = 0; v < total; v++, idx++) {
                 if (idx % nsh != shard) continue;
-                long w = v; for (int i = 0; i < len; i++) { x[i] = AL[w & 7]; w >>= 3; }
+                long w = v; for (int i = 0; i < len; i++) { x[i] = AL[w % 9]; w /= 9; }
                 vh_watchdog(10); do_all(x, (size_t) len); alarm(0);
             }
         }
@@ -153,7 +152,7 @@ int main(int argc, char **argv) {
         vh_open(argv[4]);
         for (int i = 0; i < n; i++) {
             size_t len = 5 + vh_rand() % 40;
-            for (size_t j = 0; j < len; j++) x[j] = (vh_rand() % 3) ? AL[vh_rand() & 7] : (unsigned char) (1 + vh_rand() % 255);
+            for (size_t j = 0; j < len; j++) x[j] = (vh_rand() % 3) ? AL[vh_rand() % 9] : (unsigned char) (1 + vh_rand() % 255);
             vh_watchdog(10); do_all(x, len); alarm(0);
         }
     } else return 2;
